@@ -26,6 +26,7 @@ RULE = (
     "bundled models (textbook, mini) under random bound/objective perturbations are judged by "
     "the float dual certificate only.  Non-trivial when the optimum is non-zero or the problem is "
     "infeasible/unbounded; distinct by (model hash, interface, call form, history state)."
+    " The exception raised by slim_optimize(error_value=None) is compared with the harness's own table of the documented classes per solver status."  # third-session additions
 )
 ASSUMPTIONS = [
     "exact optimum compared with tolerance 1e-6*max(1,|q|); feasibility with 10x model.tolerance scaled by row norm",
